@@ -42,5 +42,9 @@ CLAIMS = {
                 text="All texts up to length 5-6 over four prefix families (l/lo/log/log2/log10, </<=/<</==, s/si/sin/sinh + constants E/e/PI/pi, braces/literals/Greek) are tokenised by the real tokenizer and compared with the abstract longest-exact-match rules; "
                      "random texts over the real float and value tables are judged at token level and at API level.",
                 note="Trusted: TLC, Lex.tla. Unterminated braces, empty braces and alphabetic binary names glued to identifiers are unconstrained. Code points abstract bytes in the model; the real code sees real UTF-8."),
+    "C07": dict(category=MC, technique="TLA+ grammar + damage operators; TLC shows every damaged rendering is in a must-reject class and is rejected by the front-end/builder models; replay of every damaged text into the real parsers; TLC-classified random damaged texts over the real tables",
+                text="Every single-point damage (paren deleted/inserted at every position, binary operator appended, operand inserted beside every operand, illegal character at every position, blank) of every rendering incl. call form of every tree in the bound must give an error from FlatEx::parse, parse_wo_compile and DeepEx::parse; "
+                     "random damaged expressions over the real float/value tables must be rejected by parse, eval_str, parse_val and the statement parsers whenever Grammar.Classify puts the text in a must-reject class.",
+                note=BASE_NOTE + "Which error message is produced is not constrained."),
 }
 NOT_YET = {}
